@@ -488,6 +488,9 @@ impl Analyzable for Expression
 				let members = members
 					.into_iter()
 					.map(|member| {
+						// The value of a member is copied into the structure,
+						// even if the structure itself is a function argument.
+						analyzer.is_immediate_function_argument = false;
 						let expression = member.expression.analyze(analyzer);
 						MemberExpression {
 							expression,
